@@ -97,7 +97,8 @@ Extras == {"none", "before", "after", "dup-charset-after"}
 Cases == {"lower", "UPPER", "MiXed"}
 Spacing == {"tight", "spaces", "newlines"}
 Prologues == {"doctype", "html-head", "doctype-comment-fake", "doctype-script-fake", "doctype-title-fake",
-              "doctype-other-meta", "doctype-content-without-equiv", "ws-doctype"}
+              "doctype-other-meta", "doctype-content-without-equiv", "ws-doctype",
+              "doctype-long-comment", "doctype-long-script", "doctype-long-style"}   \* one token of > 4096 bytes before the declaration
 BomsH == {"none", "utf-8"}
 LimitRel == {"zero", "default", "just-past"}
 XmlForms == {"version-encoding", "version-encoding-standalone", "spaced", "newline", "tab"}
